@@ -151,6 +151,8 @@ func (s *e2eSys) step(op map[string]interface{}) map[string]interface{} {
 	kind, _ := op["op"].(string)
 	id, _ := op["id"].(string)
 	ctx := s.ctx() // a fresh context per request, as the HTTP service does
+	ctx.ReadKey, _ = op["rk"].(string)
+	ctx.WriteKey, _ = op["wk"].(string)
 	js := func(k string) string {
 		b, _ := json.Marshal(op[k])
 		return string(b)
